@@ -432,6 +432,27 @@ def consumer(ex, st, call, args):
             for s2, v in call_fn_value(ex, s, args[2], [acc, it]):
                 yield s2, v, None
         return _consume(ex, st, T, on_item, lambda s, acc: _ret(s, acc), args[1])
+    if m == "try_fold" and len(args) == 3:
+        dest = str(call.raw.get("dest_ty", ""))
+        if dest.startswith("core::result::Result"):
+            adt_p, ok_v, stop_v = "core::result::Result", "Ok", "Err"
+        elif dest.startswith("core::option::Option"):
+            adt_p, ok_v, stop_v = "core::option::Option", "Some", "None"
+        elif dest.startswith("core::ops::control_flow::ControlFlow"):
+            adt_p, ok_v, stop_v = "core::ops::control_flow::ControlFlow", "Continue", "Break"
+        else:
+            return NotImplemented
+
+        def on_item(s, acc, it):
+            for s2, v in call_fn_value(ex, s, args[2], [acc, it]):
+                v = ex.canon(s2, v)
+                if v[0] != "adt" or v[1] != adt_p:
+                    raise Unanalysable("try_fold step does not return a concrete %s" % adt_p)
+                if v[2] == ok_v:
+                    yield s2, v[3][0], None
+                else:
+                    yield s2, acc, v
+        return _consume(ex, st, T, on_item, lambda s, acc: _ret(s, ("adt", adt_p, ok_v, (acc,))), args[1])
     if m == "for_each" and len(args) == 2:
         def on_item(s, acc, it):
             for s2, v in call_fn_value(ex, s, args[1], [it]):
